@@ -5500,8 +5500,6 @@ class State:
                 raise ValueError('The player must show when all-in.')
             elif self.street is self.streets[-1]:
                 raise ValueError('A card is not shown in final showdown.')
-            else:
-                raise AssertionError
 
         for card, card_status in zip(hole_cards, hole_card_statuses):
             if not card and card_status:
